@@ -30,7 +30,8 @@ Cases == { [op |-> "stmt_forge", n |-> n, t |-> t, m |-> m, np |-> np, expect |-
              m \in (IF Quick THEN {1, 2, 4} ELSE {1, 2, 4, 8}), np \in 0..9 }
 VARIABLES c, pc
 Init == pc = "pick" /\ c = [op |-> "none"]
-Next == \/ pc = "pick" /\ pc' = "done" /\ c' \in {x \in Cases : x.np <= x.m + 1}
+\* (bits*aggregation = 1 gives a proof with zero folding rounds, which the byte encoding cannot carry: known finding of C15)
+Next == \/ pc = "pick" /\ pc' = "done" /\ c' \in {x \in Cases : x.np <= x.m + 1 /\ x.n * x.m >= 2}
         \/ pc = "done" /\ UNCHANGED <<c, pc>>
 Spec == Init /\ [][Next]_<<c, pc>>
 \* soundness: an accepted case has every commitment's term satisfied by the prover, i.e. no out-of-range commitment
